@@ -27,7 +27,7 @@ Variable pv : N.
 Variable sv : N.
 Variable bound : N.
 Variable u : counts.
-Variable fl : list (N * nat).
+Variable fl : list (N * kind).
 
 Lemma cshape_nil' l c c' : c <= c' -> cshape u l [] [] l c c'.
 Proof. intros H. eapply cshape_widen; [apply (cshape_nil u l c) | lia | exact H]. Qed.
@@ -100,10 +100,20 @@ Definition is_fundef (s : Resolved.stmt) : bool :=
   match s with SDefinition _ _ _ _ (EFunction _ _ _ _ _ _) _ => true | _ => false end.
 Lemma frag_stmts_fun fl k sc name fv kd t n params rt body b sp sp2 rest :
   frag_stmts pv sv bound fl (S k) sc (SDefinition name fv kd t (EFunction n params rt body b sp) sp2 :: rest) =
-  if (fresh_id pv sv bound fl sc fv && params_ok pv sv bound ((fv, length (param_ids params)) :: fl) sc (param_ids params)
-      && is_some (frag_stmts pv sv bound ((fv, length (param_ids params)) :: fl) k (rev (param_ids params) ++ sc) body))%bool
-  then frag_stmts pv sv bound ((fv, length (param_ids params)) :: fl) k sc rest else None.
+  if (fresh_id pv sv bound fl sc fv && params_ok pv sv bound ((fv, KF (param_kinds params) KP) :: fl) sc (param_ids params)
+      && is_some (frag_stmts pv sv bound (snd (bind_scope (param_ids params) (param_kinds params) sc ((fv, KF (param_kinds params) KP) :: fl))) k
+                             (fst (bind_scope (param_ids params) (param_kinds params) sc ((fv, KF (param_kinds params) KP) :: fl))) body))%bool
+  then frag_stmts pv sv bound ((fv, KF (param_kinds params) KP) :: fl) k sc rest else None.
 Proof. reflexivity. Qed.
+Lemma frag_expr_call fl k sc f fsp args sp :
+  frag_expr pv sv bound fl (S k) sc (Resolved.ECall (ERead f fsp) args sp) =
+  if f =? pv then match args with [a] => (negb (memN pv sc) && frag_expr pv sv bound fl k sc a)%bool | _ => false end
+  else match fun_kind fl f with Some (KF ks KP) => frag_args pv sv bound fl k sc ks args | _ => false end.
+Proof.
+  cbn [frag_expr]. destruct (f =? pv); [reflexivity|]. destruct (fun_kind fl f) as [[|ks [|? ?]]|]; try reflexivity.
+  revert args. induction ks as [|K ks IH]; intros [|a args]; try reflexivity.
+  destruct K; cbn [frag_args]; rewrite <- IH; reflexivity.
+Qed.
 Lemma frag_stmts_plain fl k sc s ss :
   is_fundef s = false ->
   frag_stmts pv sv bound fl (S k) sc (s :: ss) =
@@ -167,6 +177,19 @@ Proof.
       rewrite (frag_stmts_plain _ _ _ _ _ Hf), Hs. exact A.
 Qed.
 
+Lemma frag_stmts_flincl : forall ss k fl sc sc' flr,
+  frag_stmts pv sv bound fl k sc ss = Some (sc', flr) -> incl fl flr.
+Proof.
+  induction ss as [|s ss IH]; intros k fl sc sc' flr H; (destruct k as [|k]; [discriminate|]).
+  - cbn in H. inversion H; subst. apply incl_refl.
+  - destruct (is_fundef s) eqn:Hf.
+    + destruct s; try discriminate Hf. destruct value; try discriminate Hf. rewrite frag_stmts_fun in H.
+      match type of H with (if ?c then _ else _) = _ => destruct c eqn:Hc; [|discriminate H] end.
+      apply IH in H. intros x Hx. apply H. right. exact Hx.
+    + rewrite (frag_stmts_plain _ _ _ _ _ Hf) in H. destruct (frag_stmt pv sv bound fl k sc s) as [sc0|] eqn:Hs; [|discriminate H].
+      eapply IH; exact H.
+Qed.
+
 Lemma frag_stmts_fnames : forall ss k fl sc sc' flr,
   frag_stmts pv sv bound fl k sc ss = Some (sc', flr) -> incl (fnames fl) (fnames flr).
 Proof.
@@ -187,7 +210,7 @@ Variable pv : N.
 Variable sv : N.
 Variable bound : N.
 Variable u : counts.
-Variable fl : list (N * nat).
+Variable fl : list (N * kind).
 
 Notation L_stmt := (L_stmt pv sv bound u fl).
 Notation L_stmts := (L_stmts pv sv bound u fl).
@@ -299,17 +322,34 @@ Proof.
     apply cshape_if. eapply cshape_widen; [exact Hsb | lia | lia].
 Qed.
 
-(* the arguments of a call, one after the other *)
-Lemma L_args g : L_expr pv sv bound u fl g ->
+(* the arguments of a call, one after the other: plain expressions or names of functions *)
+Definition arg_ok (k : nat) (sc : list N) (a : Resolved.expr) : Prop :=
+  frag_expr pv sv bound fl k sc a = true \/ exists f sp, a = ERead f sp.
+
+Lemma frag_args_ok k sc : forall ks args, frag_args pv sv bound fl k sc ks args = true -> Forall (arg_ok k sc) args.
+Proof.
+  induction ks as [|K ks IH]; intros [|a args] H; cbn [frag_args] in H; try discriminate; [constructor | destruct K; discriminate |].
+  destruct K.
+  - apply andb_prop in H as [Ha Hr]. constructor; [left; exact Ha | apply IH; exact Hr].
+  - apply andb_prop in H as [Ha Hr]. constructor; [|apply IH; exact Hr].
+    right. destruct a; try discriminate Ha. eauto.
+Qed.
+
+Lemma L_args g : L_expr pv sv bound u fl (S g) ->
   forall args k ctx c rs c' sc l,
-    mapM (fun a => expression g a ctx) args c = Ok (rs, c') ->
-    forallb (frag_expr pv sv bound fl k sc) args = true ->
+    mapM (fun a => expression (S g) a ctx) args c = Ok (rs, c') ->
+    Forall (arg_ok k sc) args ->
     exists b l', cshape u l (concat (map fst rs)) b l' c c' /\ (forall r, In r rs -> c <= snd r < c').
 Proof.
   intros IH. induction args as [|a args IHa]; intros k ctx c rs c' sc l Hm Hf.
   - destruct (mapM_nil_ok _ _ _ _ Hm) as [-> ->]. eexists _, _. split; [apply cshape_nil | intros r []].
-  - apply mapM_cons_ok in Hm as (y & c1 & ys & Hy & Hys & ->). cbn [forallb] in Hf. apply andb_prop in Hf as [Hfa Hfs].
-    destruct y as [code_a va]. destruct (IH k a ctx c code_a va c1 sc l Hy Hfa) as (b1 & l1 & Hs1 & Hv1 & Hv2).
+  - apply mapM_cons_ok in Hm as (y & c1 & ys & Hy & Hys & ->). inversion Hf as [|? ? Hfa Hfs]; subst.
+    destruct y as [code_a va].
+    assert (H1 : exists b1 l1, cshape u l code_a b1 l1 c c1 /\ c <= va /\ va < c1).
+    { destruct Hfa as [Hfa|(f & fsp & ->)]; [exact (IH k a ctx c code_a va c1 sc l Hy Hfa)|].
+      cbn [expression] in Hy. mon Hy. fresh_all. injection H as <- <-.
+      eexists _, _. split; [|lia]. apply cshape_plain; [lia | reflexivity | reflexivity | apply used_plain]. }
+    destruct H1 as (b1 & l1 & Hs1 & Hv1 & Hv2).
     destruct (IHa k ctx c1 ys c' sc l1 Hys Hfs) as (b2 & l2 & Hs2 & Hrs).
     pose proof Hs1 as (_ & Hc1 & _). pose proof Hs2 as (_ & Hc2 & _).
     eexists _, _. split; [cbn [map concat fst]; eapply cshape_app; eassumption|].
@@ -327,16 +367,17 @@ Proof.
     apply cshape_plain; [lia | reflexivity | reflexivity | apply used_plain].
   - (* ECall: print(a) or f(a1, ..., an) *)
     destruct x; try discriminate Hfrag.
-    assert (Hargs : forallb (frag_expr pv sv bound fl k sc) args = true).
+    change (frag_expr pv sv bound fl (S k) sc (Resolved.ECall (ERead var sp0) args sp) = true) in Hfrag. rewrite frag_expr_call in Hfrag.
+    assert (Hargs : Forall (arg_ok k sc) args).
     { destruct (var =? pv).
-      - destruct args as [|a [|? ?]]; try discriminate Hfrag. frag_split Hfrag. cbn [forallb]. rewrite Hfr. reflexivity.
-      - destruct (fun_arity fl var); [|discriminate Hfrag]. frag_split Hfrag. exact Hfr. }
+      - destruct args as [|a [|? ?]]; try discriminate Hfrag. frag_split Hfrag. constructor; [left; exact Hfr | constructor].
+      - destruct (fun_kind fl var) as [[|ks [|? ?]]|]; try discriminate Hfrag. eapply frag_args_ok. exact Hfrag. }
     clear Hfrag.
     cbn [expression] in Hlow. mon Hlow.
     destruct g as [|g']; [discriminate|].
     cbn [expression] in Hm. mon Hm. fresh_all. injection H as <- <-.
     cbn [fst snd] in *.
-    destruct (L_args (S g') IH args k ctx (c + 1) _ _ sc l Hm0 Hargs) as (b_a & l1 & Hsa & Hrs).
+    destruct (L_args g' IH args k ctx (c + 1) _ _ sc l Hm0 Hargs) as (b_a & l1 & Hsa & Hrs).
     pose proof Hsa as (_ & Hca & _).
     eexists _, _. split.
     + eapply cshape_cons; [apply (cshape_plain u l (ICopy c var) c (c + 1)); [lia | reflexivity | reflexivity | apply used_plain] |].
